@@ -3,7 +3,8 @@
    hypothesis names the log representation invariant [LogContig]. *)
 From RV Require Import Base.Prelude Base.IdSet M.Util M.UtilProofs M.Proto M.MemStorage
   M.MemStorageProofs M.Inflights M.Progress M.RaftLog M.Quorum M.ConfChange M.Msg M.Raft
-  M.RawNode M.RaftProofs.
+  M.RawNode M.RaftProofs M.RaftLogProofs M.RaftLogProofsOps M.RaftLogProofsSlice
+  M.RaftLogProofsHistory.
 From RecordUpdate Require Import RecordSet.
 Import RecordSetNotations.
 
@@ -761,4 +762,159 @@ Proof.
   - destruct (commit_since_monotone_ready _ _ _ H) as (_ & A & _).
     destruct (A s Es) as [A1 A2]. rewrite R5. auto.
   - rewrite R5 in Hs. cbn in Hs. congruence.
+Qed.
+
+(* ------------------------------------------------------------------ *)
+(* 4. what is handed out for apply.
+   (a) over ALL states: the requested range;
+   (b) under the RaftLog representation invariant (C14, M/RaftLogProofs.v): the
+       batch is a non-empty prefix of the logical log [abs] between
+       max(since+1, first) and min(committed, persisted (+) limit). *)
+
+Definition apply_bound (l : raft_log) : N :=
+  N.min (committed l) (N.min u64_max (persisted l + max_apply_unpersisted_log_limit l)).
+
+Lemma apply_bound_is_ll l : apply_bound l = ll_apply_bound l.
+Proof. reflexivity. Qed.
+
+Theorem handout_range n n' lr :
+  gen_light_ready n = Ok (n', lr) ->
+  lr_committed_entries lr <> [] ->
+  exists f,
+    first_index (r_log (rn_raft n)) = Ok f
+    /\ let lo := N.max (rn_commit_since_index n + 1) f in
+       let hi := apply_bound (r_log (rn_raft n)) + 1 in
+       lo < hi
+       /\ slice (r_log (rn_raft n)) lo hi (Some (r_max_committed_size_per_ready (rn_raft n)))
+          = Ok (SOk (lr_committed_entries lr))
+       /\ 1 <= N.of_nat (length (lr_committed_entries lr)) <= hi - lo.
+Proof.
+  intros H Hne. destruct (gen_light_ready_spec _ _ _ H) as (oe & k & Hoe & Hlr & _ & _).
+  subst lr. cbn [lr_committed_entries] in *.
+  destruct (next_entries_since_has _ _ _ _ Hoe) as (f & ub & Hf & Hub & _ & _ & _ & Hsome & Hnone).
+  rewrite applied_index_upper_bound_spec in Hub. inversion Hub as [Hub']. fold (apply_bound (r_log (rn_raft n))) in *.
+  exists f. split; [exact Hf|]. cbv zeta.
+  destruct (N.max (rn_commit_since_index n + 1) f <? apply_bound (r_log (rn_raft n)) + 1) eqn:E.
+  - rewrite <- Hub' in *. destruct (Hsome ltac:(clear - E; lia)) as (v & -> & Hv & Hlen & Hsl).
+    cbn [ce_of]. split; [clear - E; lia|]. split; [exact Hsl|].
+    destruct v; [congruence|]. cbn [length] in *. clear - Hlen. lia.
+  - rewrite <- Hub' in *. rewrite Hnone in Hne by (clear - E; lia). cbn in Hne. congruence.
+Qed.
+
+(* the requested upper end never exceeds committed, nor persisted (+) limit *)
+Lemma apply_bound_le l :
+  apply_bound l <= committed l
+  /\ apply_bound l <= persisted l + max_apply_unpersisted_log_limit l.
+Proof. unfold apply_bound. lia. Qed.
+
+Lemma apply_bound_limit0 l :
+  max_apply_unpersisted_log_limit l = 0 -> apply_bound l <= persisted l.
+Proof. unfold apply_bound. intros ->. lia. Qed.
+
+(* F8 regression guard: limit = u64::MAX means "everything committed", no panic *)
+Theorem handout_limit_max_ok l :
+  max_apply_unpersisted_log_limit l = u64_max -> committed l <= u64_max ->
+  applied_index_upper_bound l = Ok (committed l).
+Proof.
+  intros Hl Hc. unfold applied_index_upper_bound. rewrite Hl. f_equal. lia.
+Qed.
+
+Lemma ll_slice_props L lo hi max :
+  ll_wf L -> ll_first L <= lo -> lo < hi -> hi <= ll_last L + 1 ->
+  let v := ll_slice L lo hi max in
+  v <> [] /\ contiguous_from lo v /\ N.of_nat (length v) <= hi - lo
+  /\ (exists k, v = firstn k (ll_range L lo hi))
+  /\ forall k e, nth_error v k = Some e ->
+       ll_get L (lo + N.of_nat k) = Some e /\ e_index e = lo + N.of_nat k /\ lo + N.of_nat k < hi.
+Proof.
+  intros Hw H1 H2 H3 v. subst v. unfold ll_slice.
+  pose proof (ll_range_length L lo hi H1 ltac:(lia) H3) as Hlen.
+  pose proof (ll_range_contig L lo hi Hw H1) as Hc.
+  destruct (limit_size_prefix (ll_range L lo hi) max) as (k0 & Hk0 & Ek).
+  assert (Hne : ll_range L lo hi <> []).
+  { intros C. rewrite C in Hlen. cbn in Hlen. lia. }
+  split; [apply limit_size_nonempty; exact Hne|].
+  rewrite Ek.
+  split; [apply contig_firstn; exact Hc|].
+  split; [rewrite firstn_length; lia|].
+  split; [eauto|].
+  intros k e Hn.
+  assert (Hk : (k < k0)%nat).
+  { apply Nat.nlt_ge. intros C. assert (nth_error (firstn k0 (ll_range L lo hi)) k = None).
+    { apply nth_error_None. rewrite firstn_length. lia. }
+    congruence. }
+  rewrite nth_error_firstn_lt in Hn by exact Hk.
+  assert (Hkl : (k < length (ll_range L lo hi))%nat) by (apply nth_error_Some; congruence).
+  pose proof (ll_range_nth L lo hi (lo + N.of_nat k) H1 ltac:(lia)) as Hg.
+  replace (N.to_nat (lo + N.of_nat k - lo)) with k in Hg by lia.
+  rewrite Hn in Hg. split; [symmetry; exact Hg|].
+  split; [|lia]. apply (ll_get_index L); [exact Hw|symmetry; exact Hg].
+Qed.
+
+(* the committed entries of a LightReady / Ready, exactly, under RepInv *)
+Theorem handout_abs rw n n' lr :
+  RepInv rw (r_log (rn_raft n)) -> rn_commit_since_index n < u64_max ->
+  gen_light_ready n = Ok (n', lr) ->
+  let l := r_log (rn_raft n) in
+  let lo := N.max (rn_commit_since_index n + 1) (ll_first (abs l)) in
+  let hi := apply_bound l + 1 in
+  lr_committed_entries lr =
+    if lo <? hi then ll_slice (abs l) lo hi (Some (r_max_committed_size_per_ready (rn_raft n)))
+    else [].
+Proof.
+  intros HI Hs H l lo hi. destruct (gen_light_ready_spec _ _ _ H) as (oe & k & Hoe & Hlr & _ & _).
+  subst lr. cbn [lr_committed_entries].
+  rewrite (next_entries_since_abs rw _ _ _ HI Hs) in Hoe. cbv zeta in Hoe.
+  inversion Hoe as [Hoe']. subst lo hi l. unfold apply_bound.
+  unfold ll_apply_bound.
+  destruct (_ <? _); reflexivity.
+Qed.
+
+Theorem handout_bound rw n n' lr :
+  RepInv rw (r_log (rn_raft n)) -> rn_commit_since_index n < u64_max ->
+  gen_light_ready n = Ok (n', lr) ->
+  let l := r_log (rn_raft n) in
+  let lo := N.max (rn_commit_since_index n + 1) (ll_first (abs l)) in
+  contiguous_from lo (lr_committed_entries lr)
+  /\ (forall k e, nth_error (lr_committed_entries lr) k = Some e ->
+        ll_get (abs l) (lo + N.of_nat k) = Some e /\ e_index e = lo + N.of_nat k)
+  /\ (forall e, In e (lr_committed_entries lr) ->
+        rn_commit_since_index n < e_index e
+        /\ e_index e <= committed l
+        /\ e_index e <= persisted l + max_apply_unpersisted_log_limit l
+        /\ ll_get (abs l) (e_index e) = Some e)
+  /\ (lr_committed_entries lr <> [] -> lo <= apply_bound l)
+  /\ (lo <= apply_bound l -> lr_committed_entries lr <> []).
+Proof.
+  intros HI Hs H l lo.
+  pose proof (handout_abs rw n n' lr HI Hs H) as E. cbv zeta in E. fold l lo in E.
+  pose proof (apply_bound_le l) as [Hb1 Hb2].
+  pose proof (ri_commit rw l HI) as Hcm.
+  destruct (lo <? apply_bound l + 1) eqn:Elt.
+  - destruct (ll_slice_props (abs l) lo (apply_bound l + 1)
+                (Some (r_max_committed_size_per_ready (rn_raft n)))
+                (abs_wf rw l HI) ltac:(subst lo; lia) ltac:(lia) ltac:(lia))
+      as (P1 & P2 & P3 & P4 & P5).
+    rewrite <- E in *.
+    split; [exact P2|].
+    split; [intros k e Hn; destruct (P5 k e Hn) as (A & B & _); auto|].
+    split.
+    { intros e Hin. apply In_nth_error in Hin. destruct Hin as [k Hk].
+      destruct (P5 k e Hk) as (A & B & C). rewrite B.
+      repeat split; try (subst lo; lia). rewrite <- B in A. rewrite <- B. exact A. }
+    split; [intros _; lia|intros _; exact P1].
+  - rewrite E. split; [exact I|]. split; [intros k e Hn; destruct k; discriminate|].
+    split; [intros e []|]. split; [congruence|intros C; lia].
+Qed.
+
+(* "only persisted entries are handed out" unless apply-before-persist is enabled *)
+Theorem handout_persisted_only rw n n' lr :
+  RepInv rw (r_log (rn_raft n)) -> rn_commit_since_index n < u64_max ->
+  max_apply_unpersisted_log_limit (r_log (rn_raft n)) = 0 ->
+  gen_light_ready n = Ok (n', lr) ->
+  forall e, In e (lr_committed_entries lr) -> e_index e <= persisted (r_log (rn_raft n)).
+Proof.
+  intros HI Hs Hl H e Hin.
+  destruct (handout_bound rw n n' lr HI Hs H) as (_ & _ & A & _).
+  destruct (A e Hin) as (_ & _ & B & _). rewrite Hl in B. lia.
 Qed.
